@@ -50,7 +50,7 @@ def main():
     for c in P.get("acc", []):
         try:
             px = np.array([[[np.nan if v is None else v for v in row] for row in t] for t in c["pix"]], dtype=c["dtype"])
-            da = xr.DataArray(px, dims=("time", "y", "x"), coords={"time": np.arange(px.shape[0])}, attrs={"nodata": c["nodata"]})
+            da = xr.DataArray(px, dims=("time", "y", "x"), coords={"time": np.arange(px.shape[0])}, attrs={"nodata": float("nan") if c.get("nodata_nan") else c["nodata"]})
             zz = xr.DataArray(np.array(c["zones"], dtype=c.get("zdtype", "int16")), dims=("y", "x"), attrs={"nodata": c["znodata"]})
             ids = list(range(c["num_zones"]))
             r = da.hdc.zonal.mean(zz, ids, dtype=c["out"], dim_name="zid", name=c.get("name"))
